@@ -1,6 +1,6 @@
 SPECIFICATION Spec
 CONSTANTS
-  Tokens = {"a", "/", ".", "E(", "AS", "LOW", "ASP", "NEST", "NS", "OPT", "CLS", "CLB", "ANY"}
+  Tokens = {"a", "/", ".", "E(", "BS", "AS", "LOW", "ASP", "NEST", "NS", "OPT", "CLS", "CLB", "ANY"}
   MaxLen = 3
 INVARIANTS CutAtTokenBoundary CutWithinCommonTokens CutIsCommonTokens
 CHECK_DEADLOCK FALSE
